@@ -2045,7 +2045,8 @@ class binary(base_quantizer.BaseQuantizer):  # pylint: disable=invalid-name
 
   def __str__(self):
     def list_to_str(l):
-      return ",".join([str(x) for x in l])
+      # number lists are space separated in the quantizer string syntax
+      return " ".join([str(x) for x in l])
 
     flags = []
     if self.use_01:
